@@ -186,12 +186,13 @@ ALT_ENV = {'VEKSCAN_CHANNEL': 'stable'}
 
 
 class ConfigPass:
-    def __init__(self):
+    def __init__(self, features=None):
         import threading
+        features = list(features or CONFIG_FEATURES); self.features = features
         self.res = [None, None]; self.err = [None, None]
         def work(i):
             try:
-                self.res[i] = scan([], CONFIG_FEATURES, local=True, reset=False, **({} if i == 0 else {'extra_rustflags': ALT_RUSTFLAGS, 'extra_env': ALT_ENV}))
+                self.res[i] = scan([], features, local=True, reset=False, **({} if i == 0 else {'extra_rustflags': ALT_RUSTFLAGS, 'extra_env': ALT_ENV}))
             except Exception as e:  # reported by the caller (fail closed)
                 self.err[i] = repr(e)
         self.threads = [threading.Thread(target=work, args=(i,), daemon=True) for i in (0, 1)]
